@@ -259,6 +259,9 @@ func runC02(c *eng.Ctx) {
 		c.Check(eng.DominatedBy(f, run[0].Instr, df, nil), "cleanup-deferred-before-run", run[0].Instr, f, "the cleanup is deferred, so it runs after the compaction installed its result", "")
 	})
 
+	// ---- 14. a version owns its level objects (an installed version's file lists are never edited through a newer version) ----
+	c.Rule("PROV", "kv/version.version.levels{every version owns its level objects}", func() { versionOwnsLevels(c) })
+
 	c.Observe("snapshot.Load obtains readers through cache.GetReader without recording them for release — a reference leak (readers stay open), not a safety violation")
 }
 
@@ -493,4 +496,65 @@ func obsoleteKeepSet(c *eng.Ctx) {
 	c.Check(len(p.Sites(ga, eng.LoadField(fvT+".current"))) == 0 || rg, "not-only-current", nil, ga, "the active-file set is not computed from fv.current alone", "")
 	owner(c, "call of family.deleteObsoleteFiles", eng.AnyCallTo(famT+".deleteObsoleteFiles", "kv.Family.deleteObsoleteFiles"),
 		[]string{famT + ".backgroundCompactionJob", famT + ".rollup", "kv.store.deleteFamilyObsoleteFiles"}, 3)
+}
+
+// versionOwnsLevels: snapshots read the file lists of the version they retain while newer versions are built by
+// Clone + edit-log apply. Each slot of version.levels must therefore hold a level object created for that version
+// (newLevel()); if a level object is taken over from another version, every in-place mutator call of a version method
+// must go through a helper that can copy it first.
+func versionOwnsLevels(c *eng.Ctx) {
+	p := c.P
+	const levelsKey = "kv/version.version.levels"
+	isSlot := func(v ssa.Value) bool {
+		ia, ok := v.(*ssa.IndexAddr)
+		if !ok {
+			return false
+		}
+		u, ok := eng.Unwrap(ia.X).(*ssa.UnOp)
+		if !ok {
+			return false
+		}
+		fa, ok := u.X.(*ssa.FieldAddr)
+		return ok && eng.FieldKeyOfAddr(fa) == levelsKey
+	}
+	var shared []eng.Site
+	n := 0
+	for _, fn := range p.FuncsWithPrefix("kv/version.") {
+		for _, b := range fn.Blocks {
+			for _, in := range b.Instrs {
+				st, ok := in.(*ssa.Store)
+				if !ok || !isSlot(st.Addr) {
+					continue
+				}
+				n++
+				fresh := len(p.CallsIn(st.Val, "kv/version.newLevel")) > 0 && !eng.DependsOnField(st.Val, levelsKey)
+				c.Check(true, "slot-store@"+p.FuncKey(fn), in, fn, "stores into version.levels are enumerated", fmt.Sprintf("fresh=%v value=%s", fresh, p.Desc(st.Val)))
+				if !fresh {
+					shared = append(shared, eng.Site{Fn: fn, Instr: in})
+				}
+			}
+		}
+	}
+	c.Check(n >= 1, "slot-stores-found", nil, nil, "at least one store into version.levels exists (newVersion)", fmt.Sprintf("found %d", n))
+	muts := 0
+	for _, fn := range p.FuncsWithPrefix("kv/version.version.") {
+		for _, s := range p.SitesDirect(fn, eng.CallTo("kv/version.level.addFile", "kv/version.level.addFiles", "kv/version.level.deleteFile")) {
+			muts++
+			recv := eng.CallRecv(s.Instr.(ssa.CallInstruction))
+			direct := true
+			if u, ok := eng.Unwrap(recv).(*ssa.UnOp); ok {
+				direct = isSlot(u.X)
+			} else if _, ok := eng.Unwrap(recv).(*ssa.Call); ok {
+				direct = false
+			}
+			ok := len(shared) == 0 || !direct
+			detail := ""
+			if !ok {
+				detail = fmt.Sprintf("the level object may be shared with another version (%s) and is edited in place", p.InstrPos(shared[0].Instr))
+			}
+			c.Check(ok, "mutator@"+baseName(fn.Name()), s.Instr, fn,
+				"a level's file list is edited only through the version that owns the level object", detail)
+		}
+	}
+	c.Check(muts >= 3, "mutators-found", nil, nil, "AddFile, AddFiles and DeleteFile edit a level", fmt.Sprintf("found %d", muts))
 }
